@@ -19,7 +19,12 @@ def usz(eng, lin):
 
 @stub(r"^std::vec::Vec::<T>::(new|with_capacity)$|^std::string::String::new$|^<std::vec::Vec<T> as std::default::Default>::default$|^<std::string::String as std::default::Default>::default$")
 def vec_new(eng, st, site, func, target, args, dty):
-    return [(st, new_vec(eng, st, Lin.const(0)))]
+    ety = None
+    if dty is not None:
+        t = eng.T(dty)
+        if t["k"] == "adt" and t["args"] and isinstance(t["args"][0], int):
+            ety = t["args"][0]
+    return [(st, new_vec(eng, st, Lin.const(0), elem_ty=ety))]
 
 
 @stub(r"^std::vec::Vec::<T, A>::len$|^std::string::String::len$")
@@ -47,7 +52,10 @@ def vec_push(eng, st, site, func, target, args, dty):
     elems = None
     if v.elems is not None and len(v.elems) < 6:
         elems = v.elems + (args[1],)
-    st.cells[cell] = VVec(v.len + 1, None if v.segs else None, elems, v.name, v.elem_ty, v.marks)
+    segs = None
+    if v.segs is not None and isinstance(args[1], VInt) and eng.int_info(args[1].ty) == (8, False):
+        segs = v.segs + ((Lin.const(1), ("be", args[1], 1)),)
+    st.cells[cell] = VVec(v.len + 1, segs, elems, v.name, v.elem_ty, v.marks)
     st.emit(("push", cell, args[1], site_info(site)))
     return [(st, UNIT)]
 
@@ -808,6 +816,54 @@ def iter_items(eng, st, it):
     return None
 
 
+def classify_pred(eng, st, site, clo, ety, by_ref):
+    """if closure `clo` applied to an element of enum type ety is exactly 'element is variant k'
+    (bool result) or 'Some iff element is variant k' (Option result): return k, else None"""
+    if ety is None:
+        return None
+    nv = eng.n_variants(ety)
+    if nv is None or nv > 4:
+        return None
+    yes = []
+    eng.mute += 1
+    try:
+        for k in range(nv):
+            probe = st.fork()
+            nm = eng.fresh("cls")
+            e = eng.symval(probe, ety, nm)
+            if not isinstance(e, VAdt):
+                return None
+            e = VAdt(e.ty, Lin.const(k), {}, e.base)
+            arg = e
+            if by_ref:
+                cell = ("clselem", nm)
+                probe.cells[cell] = e
+                arg = VRef(cell, (), False)
+            rets = eng.call_closure(probe, site, clo, [arg])
+            if not rets:
+                return None
+            vals = set()
+            for s3, r in rets:
+                if isinstance(r, VBool):
+                    b = eng.bool_value(s3, r.f)
+                    if b is None:
+                        return None
+                    vals.add(b)
+                elif isinstance(r, VAdt) and r.vidx.is_const():
+                    vals.add(r.vidx.c == 1)
+                else:
+                    return None
+            if len(vals) != 1:
+                return None
+            if vals.pop():
+                yes.append(k)
+    finally:
+        eng.mute -= 1
+    if len(yes) == 1:
+        return yes[0]
+    return None
+
+
 @stub(r"^std::iter::Iterator::(all|any)$|std::iter::Iterator>::(all|any)$")
 def iter_all_any(eng, st, site, func, target, args, dty):
     is_all = target["name"].endswith("all")
@@ -851,7 +907,11 @@ def iter_all_any(eng, st, site, func, target, args, dty):
         elem = VRef(cell, (), False)
     eng.call_closure(probe, site, clo, [elem])
     src = it.src.base if isinstance(it, VIter) and isinstance(it.src, VSlice) else None
-    sym = ("sym", "%s(%r)" % ("all" if is_all else "any", src))
+    k = classify_pred(eng, st, site, clo, ety, True) if src is not None else None
+    if k is not None and not is_all:
+        sym = ("sym", "any:v%d:%r" % (k, src))
+    else:
+        sym = ("sym", "%s(%r)#%s" % ("all" if is_all else "any", src, eng.fresh("p")))
     st.emit(("hof", "all" if is_all else "any", src, clo.key if isinstance(clo, VClosure) else None, site_info(site)))
     return [(st, VBool(sym))]
 
@@ -882,6 +942,21 @@ def iter_collect(eng, st, site, func, target, args, dty):
     ln = eng.new_int(eng.usize_ty(), "collected", 0)
     if bound is not None:
         st.cons.append(c_le(ln.lin, bound))
+    if isinstance(it, VIter) and it.kind == "filter_map" and src_cell is not None:
+        v = st.cells.get(src_cell)
+        ety = v.elem_ty if isinstance(v, VVec) else None
+        k = classify_pred(eng, st, site, it.extra, ety, False)
+        nv = eng.n_variants(ety) if ety is not None else None
+        if k is not None:
+            fact = st.bitfacts.get(("sym", "any:v%d:%r" % (k, src_cell)))
+            if fact is True:
+                st.cons.append(c_le(Lin.const(1), ln.lin))
+            elif fact is False:
+                st.cons.append(c_eq(ln.lin, Lin.const(0)))
+            if nv == 2:
+                other = st.bitfacts.get(("sym", "any:v%d:%r" % (1 - k, src_cell)))
+                if other is False and bound is not None:
+                    st.cons.append(c_eq(ln.lin, bound))
     st.emit(("collect", it.kind if isinstance(it, VIter) else None, src_cell,
              it.extra.key if isinstance(it, VIter) and isinstance(it.extra, VClosure) else None, site_info(site)))
     return [(st, new_vec(eng, st, ln.lin, None, None))]
